@@ -9,4 +9,4 @@ Extraction "extracted/C13_model.ml" xb_types max_token cfg0 build cycle_take
   json_stream_decode json_array_decode entity_entry
   parse_shoot_name convert spread_counts extract_index property_resolve rand_string_alloc
   mp_reads grpc_decode decode_header header_set GET rand_int_range
-  config_headers provider_new_headers header_entry_okb header_list_okb scenario_weights.
+  config_headers provider_new_headers header_entry_okb header_list_okb scenario_weights scenario_requests.
